@@ -119,7 +119,8 @@ func (c *UI) processCommand() error {
 	if err != nil {
 		return err
 	}
-	if cmdStr == "" {
+	// Line consisting only of spaces contains no command as well.
+	if strings.Trim(cmdStr, " ") == "" {
 		return nil
 	}
 
